@@ -139,6 +139,14 @@ def cases(ctx):
     for i, (a, tp) in enumerate([(1, "int"), (3, "int"), (-2, "int"), (0.7, "float32"), (2.5, "float32"), (1.1, "float64"), (7, "int"), (5.5, "float32")]):
         if ctx.mine(i):
             yield {"kind": "sdk", "angle": a, "axis": "XYZ"[i % 3], "type": tp}
+    # `angle` given together with explicit (n, d): documented as "n and d are ignored", also for angles of exactly zero
+    import math as _m
+    j = 0
+    for a in [0.0, -0.0, 2 * _m.pi, -2 * _m.pi, 1e-9, _m.pi / 2, 0.7, -3.0] + ([ctx.rng.uniform(-7, 7) for _ in range(40)] if not ctx.quick else []):
+        for nd in ([1, 1], [3, 2], [255, 0]):
+            j += 1
+            if ctx.mine(j) and (not ctx.quick or j % 2 == 0 or a == 0.0):
+                yield {"kind": "sdk", "angle": a, "axis": "XYZ"[j % 3], "nd": nd}
     # the same float angle used on a FutureQubit (EPR context) and afterwards on ordinary qubits
     for i, a in enumerate([0.7, 1.234, -0.4, 2.0, 5.5] + [ctx.rng.uniform(0.05, 6.2) for _ in range(4 if ctx.quick else 60)]):
         if ctx.mine(i):
@@ -188,7 +196,11 @@ def run_case(ctx, case):
     def prog(conn):
         from netqasm.sdk.qubit import Qubit
         q = Qubit(conn)
-        getattr(q, "rot_" + case["axis"])(angle=arg)
+        if case.get("nd"):
+            ctx.count("sdk_route_angle_with_explicit_n_d")
+            getattr(q, "rot_" + case["axis"])(n=case["nd"][0], d=case["nd"][1], angle=arg)
+        else:
+            getattr(q, "rot_" + case["axis"])(angle=arg)
 
     try:
         subs = emitted_subroutines(prog)
